@@ -828,3 +828,31 @@ Lemma wait_rt_example :
   in_grammar_dur true (Seq (Eff 1) (Seq (WaitIn false) (Seq (Eff 2) (Seq (WaitIn true) (Eff 3))))) = true /\
   okd true true (in_bits [VL false; VL true; VV KUns 3 5]).
 Proof. split; [reflexivity|split; intros _; discriminate]. Qed.
+
+(** ** the input assumption from a finite case alphabet (used by generated case files) *)
+Definition okdb (da ds : bool) (inp : cinp) : bool :=
+  (negb da || (0 <=? i_dur inp)%Z) && (negb ds || (1 <=? i_dur inp)%Z).
+
+Lemma okdb_ok da ds inp : okdb da ds inp = true -> okd da ds inp.
+Proof.
+  unfold okdb, okd. intros H. apply andb_true_iff in H. destruct H as [H0 H1]. split; intros ->; cbn in *.
+  - apply Z.leb_le. exact H0.
+  - apply Z.leb_le. exact H1.
+Qed.
+
+Lemma admissible_alphabet {SB I O : Type} (step : SB -> I -> SB * O) alphabet assume :
+  forall ins s, admissible step alphabet assume s ins -> Forall (fun i => In i alphabet) ins.
+Proof.
+  induction ins as [|i r IH]; intros s H; [constructor|].
+  cbn in H. destruct H as (Hi & _ & Hr). constructor; [exact Hi|exact (IH _ Hr)].
+Qed.
+
+Theorem lower_correct_dur_alphabet ds p alphabet : in_grammar_dur ds p = true ->
+  forallb (fun i => okdb true ds (in_bits i)) alphabet = true ->
+  forall {SB O : Type} (step : SB -> list value -> SB * O) assume s ins, admissible step alphabet assume s ins ->
+    traceB (mstepZ (lower p)) minitZ ins = traceB (ref_step p) rinit ins.
+Proof.
+  intros Hg Ha SB O step assume s ins Had. apply (lower_correct_dur ds p Hg).
+  apply admissible_alphabet in Had. rewrite forallb_forall in Ha.
+  eapply Forall_impl; [|exact Had]. intros i Hi. apply okdb_ok, Ha, Hi.
+Qed.
